@@ -76,6 +76,19 @@ class Prop(PropBase):
                 cfg = scen.rand_cfg(r2, dense=dn, wait=1, start=st, end=en, min=0.0, max=0.0, pktcb=0)
                 scn_all.append(scen.mixed_scenario(r2, self.L, 'RSBP', f'c07_RSBP_rev_{k}_{"d" if dn else "n"}', cfg, malformed_p=0.0, badblk_p=0.0, gap_p=0.02, difop_at=0,
                                                    bpv4=(k % 2 == 1), reversal=1, start_az=r2.choice([None, 2900, 11900, 35900]), step=r2.choice([None, 200, 2000]), npk=4))
+        # every mechanical type, whatever the seed: a loaded calibration with horizontal offsets of up to +-20 deg and a stream that sweeps
+        # across the start edge (and, the other half, the end edge) of a restricted window in 0.2 deg steps: the window applies to the
+        # calibrated azimuth of each channel, not to the block's
+        for ti, t in enumerate(scen.MECH):
+            seed = rng.randrange(1 << 30)
+            st, en = [(9000, 27000), (27000, 9000), (100, 35900)][ti % 3]
+            edge = st if ti % 2 == 0 else en
+            for dn in (0, 1):
+                import random
+                r2 = random.Random(seed)
+                cfg = scen.rand_cfg(r2, dense=dn, wait=1, start=st, end=en, min=0.0, max=0.0, pktcb=0, mode=1)
+                scn_all.append(scen.mixed_scenario(r2, self.L, t, f'c07_edge_{t}_{"d" if dn else "n"}', cfg, malformed_p=0.0, badblk_p=0.0, gap_p=0.0, difop_at=0,
+                                                   start_az=(edge - 500) % 36000, step=20, npk=5, cali_kind='valid', fov=(0, 36000), bpv4=False, reversal=0))
         # revolutions with very few valid points (0, 1, lasers-1, lasers, ...): dense output delivers each non-empty frame with exactly
         # its valid points (a frame smaller than one column of lasers included), and omits only the empty ones
         for ti, t in enumerate(scen.MECH):
